@@ -586,6 +586,21 @@ def gen_plan(repo="/repo"):
             loop = next((s for s in after if isinstance(s, ast.For)), None)
             if loop is None or "blocks" not in ast.unparse(loop.iter) or ast.unparse(loop.target) != "(ii, block, skip)":
                 raise Unsupported(f"{cls}.read_plan loop header changed: " + (ast.unparse(loop.iter) if loop else "none"))
+            if cls == "FilReader":
+                # the loop body is modelled by hand (Model/Plan.v plan_loop); refuse any statement the model was not written from
+                expected_body = [
+                    "logger.debug(",
+                    "expected_nbytes = int(block * self.chan_stride)",
+                    "nbytes = self._file.creadinto(memoryview(read_buffer)[:expected_nbytes], None if unpack_buffer is None else memoryview(unpack_buffer)[:block])",
+                    "if nbytes != expected_nbytes:",
+                    "if skip != 0:\n    self._file.seek(int(skip * self.chan_stride), whence=1)",
+                    "yield (block // self.header.nchans, ii, data[:block])",
+                ]
+                got_body = [ast.unparse(s_) for s_ in loop.body]
+                if len(got_body) != len(expected_body) or any(not g_.startswith(e_) for g_, e_ in zip(got_body, expected_body)):
+                    raise Unsupported("FilReader.read_plan loop body differs from the text Model/Plan.v was written from: " + " | ".join(g_[:70] for g_ in got_body))
+                if not isinstance(loop.body[3], ast.If) or not isinstance(loop.body[3].body[-1], ast.Raise) or "ValueError" not in ast.unparse(loop.body[3].body[-1]):
+                    raise Unsupported("FilReader.read_plan: a byte-count mismatch no longer raises ValueError")
             out.append(f"(* {cls}.read_plan loop body (hand-modelled in Model/Plan.v; recorded here so a textual change is visible):")
             for s in loop.body:
                 out.append("   " + ast.unparse(s).replace("*)", "* )").replace("(*", "( *").replace("\n", "\n   "))
